@@ -32,6 +32,34 @@ def parser():
     return _parser
 
 
+_cached = None
+
+
+def cached_parser():
+    global _cached
+    if _cached is None or len(_cached.parse_cache) > 3000:
+        from smartquery import SqParser
+        _cached = SqParser(parse_cache={})
+    return _cached
+
+
+def lit2(v):
+    """source text of a plain value (the marker 'ROW' stands for the host variable row = [7, 8])"""
+    if v == 'ROW':
+        return 'row'
+    if v is None or v is True or v is False:
+        return repr(v)
+    if isinstance(v, D):
+        return lit(v)
+    if isinstance(v, str):
+        return '"%s"' % v
+    if isinstance(v, list):
+        return '[' + ', '.join(lit2(x) for x in v) + ']'
+    if isinstance(v, dict):
+        return '{' + ', '.join('"%s": %s' % (k, lit2(x)) for k, x in v.items()) + '}'
+    raise TypeError(v)
+
+
 def lit(v):
     if isinstance(v, D):
         s = format(v, 'f')
@@ -82,6 +110,38 @@ def check_case(case):
             seen.add(int(r))
         # (whether both bounds are ever produced is not part of the statement: informational only)
         return fails, {'full_range_seen': hi - lo <= 3 and seen == set(range(lo, hi + 1)), 'nontrivial': hi - lo <= 3 or not (type(a) is int and type(b) is int and abs(a) < 100 and abs(b) < 100)}
+    if kind in ('randlit', 'shufflelit'):
+        # the list is spelled out in the program text; the host mutates every result it is handed
+        from sqv.values import canon
+        lst = core.dec(case['list'])
+        want = [canon(x) for x in lst]
+        row = [D(7), D(8)]
+        names = {'row': row}
+        pp = cached_parser() if case.get('cached') else p
+        for i in range(40):
+            random.seed(seed0 + i)
+            try:
+                r = pp.eval(case['src'], names)
+            except Exception as e:  # noqa
+                bad(f'{kind}:raised', f'{case["src"]}: {type(e).__name__}: {e}')
+                break
+            if kind == 'randlit':
+                if canon(r) not in want:
+                    bad('rand(list):not-an-element', f'{case["src"]} returned {r!r} on draw {i + 1}' + (' (parser with a parse cache)' if case.get('cached') else ''))
+                    break
+                got = [r]
+            else:
+                if not isinstance(r, list) or sorted(map(repr, (canon(x) for x in r))) != sorted(map(repr, want)):
+                    bad('shuffle:not-a-permutation', f'{case["src"]} returned {r!r} on draw {i + 1}' + (' (parser with a parse cache)' if case.get('cached') else ''))
+                    break
+                got = [r] + list(r)
+            for x in got:
+                if isinstance(x, list):
+                    x.append('seen-by-host')
+                elif isinstance(x, dict):
+                    x['seen-by-host'] = 1
+            row[:] = [D(7), D(8)]
+        return fails, {'nontrivial': True}
     lst = core.dec(case['list'])
     names = {'l': lst}
     snapshot = copy.deepcopy(lst)
@@ -158,6 +218,16 @@ def cases(draw):
             else:
                 a, b = conv[style](lo), conv[style](hi)
         return {'kind': kind, 'src': src, 'a': core.enc(a), 'b': core.enc(b), 'seed': seed}
+    if n(4) == 0:
+        elems = [D(1), D(2), 'a', None, True, [D(1), D(2)], [D(3), D(4)], [D(1), D(2), D(3)], [], {'a': D(1)}, {}, [[D(1)]], 'ROW', D('2.50'), [D(5)]]
+        lst = [pick(elems) for _ in range(pick([1, 1, 1, 2, 2, 3, 5]))]
+        kind2 = 'randlit' if kind == 'randlist' else 'shufflelit'
+        text = lit2(lst)
+        src = pick(['rand(%s)', '%s.rand()', '%s | rand', 'x = %s\nrand(x)', 'map([1, 2, 3], q => rand(%s))[q0]'] if kind2 == 'randlit' else
+                   ['shuffle(%s)', '%s.shuffle()', '%s | shuffle', 'x = %s\nshuffle(x)'])
+        src = src.replace('%s', text).replace('q0', str(n(3)))
+        value = [[D(7), D(8)] if x == 'ROW' else x for x in lst]
+        return {'kind': kind2, 'src': src, 'list': core.enc(value), 'seed': seed, 'cached': bool(n(2))}
     k = pick([0, 1, 1, 2, 3, 5, 20]) if kind == 'shuffle' else pick([1, 1, 2, 3, 20])
     pool = [D(1), D(2), D(1), 'a', 'a', None, True, D('1.0')]
     lst = [[D(n(3))] if n(5) == 0 else pick(pool) for _ in range(k)]
@@ -181,7 +251,7 @@ def run_job(job):
         st.add('draws', DRAWS)
         if info.get('full_range_seen'):
             st.add('small_ranges_fully_covered')
-        return hyp.Result(fails, info['nontrivial'], ['kind:' + case['kind']], key=core.jdump({k: v for k, v in case.items() if k != 'seed'}),
+        return hyp.Result(fails, info['nontrivial'], ['kind:' + case['kind']] + (['cached-parser'] if case.get('cached') else []), key=core.jdump({k: v for k, v in case.items() if k != 'seed'}),
                           sample={k: v for k, v in case.items()})
 
     hyp.drive(cases(), check, st, seed=seed, max_examples=n)
